@@ -205,6 +205,12 @@ class Interp:
                     if k.startswith("self."):
                         env1[k] = v
                 self.prelude_len = len(self.trace)
+            # attributes given for a symbolic object by path ('node.attr') are attributes of that object under any name
+            for k_, v_ in list(env1.items()):
+                if k_.count(".") == 1:
+                    root_, attr_ = k_.split(".")
+                    if isinstance(env1.get(root_), Sym) and root_ != "self":
+                        self.heap[(env1[root_].tag, attr_)] = v_
             self.fn_stack = [fn]
             if fn.parent is not None and isinstance(fn.node, (ast.FunctionDef, ast.AsyncFunctionDef)) and fn.name not in env1:
                 env1[fn.name] = LocalFn(fn.node, env1, fn)   # a nested function can call itself
